@@ -2,6 +2,14 @@
 """Regenerates /verif/MANIFEST.json from the table below (run after adding a check)."""
 import json, subprocess
 CHECKS = {
+ "C08": dict(level="model_checking",
+   text="History exploration of the real broker's outbound side: one persistent subscriber that controls its acknowledgements (PUBACK / PUBREC / PUBCOMP, in or out of order), a helper publishing at QoS 0/1/2 while it is on- or offline, windows 1-2 (thorough 3), connection loss by peer drop, broker write failing before/after the transfer, broker read failing, clean and unclean reconnects, optional QoS 0 bystander subscriber; all histories to depth 6 (thorough 8-9), each followed by a reconnect-and-acknowledge-everything epilogue; instant clause at every PUBLISH write (recorded first), store clause at every quiescence, retransmission-set / DUP / session-present clauses at every resume, nothing-lost clause at the end.",
+   note="Trusted: rewriter + scheduler shims, codec pipe, recording backend, subscriber model in mc/h/subhist. Queue capacity exceeds the depth (capacity drops are out of scope). Acks are sent at quiescence.",
+   technique="bounded-exhaustive environment-history exploration with fault injection at every packet, implementation under a controlled scheduler", design="5 (C08)"),
+ "C16": dict(level="model_checking",
+   text="Same history space as C08 (windows 1-3, mixed QoS, all acknowledgement patterns incl. out-of-order and reconnects in between) with the window clauses: unacknowledged QoS>0 packets at the subscriber (retransmitted PUBLISH and PUBREL included) never exceed the window at any write; inductive token-conservation invariant at every quiescent state (free dequeue tokens + outgoing store + dequeuer-held token = window, read by reflection); progress epilogue: acknowledging everything delivers every queued message.",
+   note="Trusted: as C08; the token invariant reads the unexported dequeueTokens channel and is skipped (and reported) if the field does not exist. 'QoS 0 does not occupy slots' is checked through token conservation, not by demanding delivery while the window is full.",
+   technique="bounded-exhaustive environment-history exploration with an inductive state invariant over reachable quiescent states", design="5 (C16)"),
  "C06": dict(level="model_checking",
    text="History exploration of the real broker with scripted clients: (a) every sequence of 2 (thorough 3) events over an 80-event alphabet on one subscriber's table (single- and multi-filter SUBSCRIBE with different QoS, UNSUBSCRIBE, unclean reconnect) with 12 probe publishes (4 topics x 3 QoS) after each event; (b) every sequence of 4 (thorough 5) subscribe/unsubscribe/publish/reconnect events by 2 (thorough 3) clients incl. self-delivery; (c) the same with one scheduling deviation inside each step. After every event every inbox is compared with a reference model (multiset, retain flag, QoS within the capped set, SUBACK codes).",
    note="Trusted: rewriter + scheduler shims, codec pipe, scripted clients, ref.Matches, the 60-line subscription/retained model in mc/h/pubsub. Clients acknowledge at once (no back-pressure); order within an inbox is not compared.",
